@@ -1,2 +1,3 @@
+pub mod forms;
 pub mod primes;
 pub mod relcheck;
